@@ -15,7 +15,7 @@ META = {
     'technique': 'shape-case abstract interpretation (heap of symbolic field/paragraph objects) of the re-ordering, replace/delete and '
                  'paragraph insert/append methods of the format-preserving document classes, compared case by case with a reference list '
                  'model; effect-ordering rule (the final-newline helper runs before the first mutation and on the right element) observed '
-                 'on the same interpreter; direction table for bulk relocation as a cross-check; path rule (locals substituted away) for the occurrence looked up by set_field_from_raw_string; append/insert interpreted on documents ending with an empty paragraph, an unterminated comment or an unterminated blank line; obligations on set_kvpair_element (the element that is set is terminated; replace-all by a later occurrence keeps it attached) and a frame obligation on delete (no other field changes); ownership scenario: an element placed in another paragraph keeps its parent link when the field is removed or replaced here; the final-newline helper interpreted on paragraphs whose last field is a later occurrence of a repeated name; copies of paragraphs are free paragraphs',
+                 'on the same interpreter; direction table for bulk relocation as a cross-check; path rule (locals substituted away) for the occurrence looked up by set_field_from_raw_string; append/insert interpreted on documents ending with an empty paragraph, an unterminated comment or an unterminated blank line; obligations on set_kvpair_element (the element that is set is terminated; replace-all by a later occurrence keeps it attached) and a frame obligation on delete (no other field changes); ownership scenario: an element placed in another paragraph keeps its parent link when the field is removed or replaced here; the final-newline helper interpreted on paragraphs whose last field is a later occurrence of a repeated name; copies of paragraphs are free paragraphs; copy.deepcopy of a document made as the copy module makes it (the __deepcopy__ of the class interpreted when it has one, weak links copied as they are) followed by insert / append of a paragraph of either document into either document; a class that keeps a linked list next to a table of its nodes defines its own copy protocol; the private attributes of the key set are read off its constructor by role',
     'level_text': 'Static decision per shape case (paragraphs with unique and with duplicated names; single, indexed and bulk relocation '
                   'relative to start, end and reference fields at every position; documents with 0..2 paragraphs, trailing separators and '
                   'free comments): the resulting element order equals the reference model, the per-name occurrence lists are in document '
